@@ -21,7 +21,7 @@ extern "C" size_t __sanitizer_get_current_allocated_bytes();
 // freed memory is overwritten with a known byte (the ASan counterpart of the runner's M_PERTURB fill): a value read from an object that
 // was already destroyed then shows up as garbage in the result instead of as the stale - and plausible - old value.  GMP is not
 // instrumented, so ASan itself does not see such reads.
-extern "C" const char* __asan_default_options() { return "max_free_fill_size=1048576:free_fill_byte=85"; }
+extern "C" const char* __asan_default_options() { return "max_free_fill_size=1048576:free_fill_byte=85:quarantine_size_mb=48"; }
 static size_t block_size(const void* p) { return __sanitizer_get_allocated_size(p); }
 static size_t heap_bytes() { return __sanitizer_get_current_allocated_bytes(); }
 #else
@@ -400,6 +400,9 @@ static std::vector<Op> alphabet_small(const St& s)
       shape = shape || ((o.fn == GET_LOWER_REAL || o.fn == GET_UPPER_REAL || o.fn == GET_OBJ_REAL || o.fn == GET_PRIMAL_REAL || o.fn == GET_DUAL_REAL
                          || o.fn == GET_REDCOST_REAL) && o.v == 1);
       shape = shape || (o.fn == SET_INT && (o.v == 2 || o.v == 4));
+      // the file read of the deepest level is the MPS one: an LP-format read leaks about 1 MB per call inside SoPlex (see run_seq_iso) and has to
+      // be executed in a forked child, which is affordable on levels 1 and 2 (one fork per subtree) but not once per leaf
+      if(o.fn == READ_INSTANCE) { if(o.v == 1) a.push_back(o); last = o.fn; continue; }
       if(o.fn != last || shape) a.push_back(o);
       last = o.fn;
    }
@@ -1270,6 +1273,41 @@ static SeqResult run_seq_iso(const Seq& q, Ctx& c, uint64_t beforeHash = 0)
    return r;
 }
 
+static bool has_lp_read(const Seq& q)
+{
+   for(auto& o : q.ops) if(o.fn == READ_INSTANCE && o.v == 0) return true;
+   return false;
+}
+// runs body in a forked child of the worker (same reason as run_seq_iso, for a whole subtree at once)
+static uint64_t in_child(Ctx& c, const std::function<uint64_t()>& body, const Seq& what)
+{
+   int fd[2];
+   if(!c.sink || pipe(fd) != 0) return body();
+   c.flushDelta();
+   fflush(c.sink);
+   pid_t p = fork();
+   if(p == 0)
+   {
+      close(fd[0]);
+      uint64_t r = body();
+      c.flushDelta();
+      fflush(c.sink);
+      if(write(fd[1], &r, sizeof r) < 0) {}
+      _exit(0);
+   }
+   close(fd[1]);
+   uint64_t r = 0;
+   ssize_t got = p > 0 ? read(fd[0], &r, sizeof r) : -1;
+   close(fd[0]);
+   int st = 0;
+   if(p > 0) waitpid(p, &st, 0);
+   if(got != (ssize_t)sizeof r)
+      c.violation(std::string("crash-in-isolated-subtree:") + (WIFSIGNALED(st) ? "sig" + std::to_string(WTERMSIG(st)) : "exit" + std::to_string(WEXITSTATUS(st)))
+                  + "@" + FNAME[what.ops.back().fn] + "[" + vlabel(what.ops.back()) + "]", what.str(), "the forked executor of the subtree below this sequence (it contains an LP-format read) died");
+   c.count("subtrees_executed_in_a_forked_child(LP-format read leaks)");
+   return r;
+}
+
 static uint64_t opcode(const Op& o) { return (uint64_t)o.fn * 1000 + o.v + 1; }
 static Op opdecode(uint64_t c) { Op o; c -= 1; o.fn = (int)(c / 1000); o.v = (int)(c % 1000); return o; }
 
@@ -1324,22 +1362,29 @@ int main(int argc, char** argv)
       if(depth >= 2)
          for(auto& op2 : alphabet(r1.st))
          {
+            if(now_s() > rep.deadline) { c.count("subtrees_cut_by_the_deadline"); break; }
             Seq s2 = s;
             s2.ops.push_back(op2);
-            set_sub(opcode(op2) * 1000000);
-            SeqResult r2 = run_seq_iso(s2, c, r1.h);
-            h = h * 31 + r2.h;
-            c.count("transitions");
-            if(!r2.alive) { c.count("subtrees_pruned_after_violation"); continue; }
-            if(depth >= 3)
-               for(auto& op3 : (small3 ? alphabet_small(r2.st) : alphabet(r2.st)))
-               {
-                  Seq s3 = s2;
-                  s3.ops.push_back(op3);
-                  set_sub(opcode(op2) * 1000000 + opcode(op3));
-                  h = h * 31 + run_seq_iso(s3, c, r2.h).h;
-                  c.count("transitions");
-               }
+            bool lp12 = has_lp_read(s2);
+            auto body = [&]() -> uint64_t
+            {
+               set_sub(opcode(op2) * 1000000);
+               SeqResult r2 = run_seq(s2, c, r1.h);
+               uint64_t hh = r2.h;
+               c.count("transitions");
+               if(!r2.alive) { c.count("subtrees_pruned_after_violation"); return hh; }
+               if(depth >= 3)
+                  for(auto& op3 : (small3 ? alphabet_small(r2.st) : alphabet(r2.st)))
+                  {
+                     Seq s3 = s2;
+                     s3.ops.push_back(op3);
+                     set_sub(opcode(op2) * 1000000 + opcode(op3));
+                     hh = hh * 31 + (lp12 ? run_seq(s3, c, r2.h) : run_seq_iso(s3, c, r2.h)).h;
+                     c.count("transitions");
+                  }
+               return hh;
+            };
+            h = h * 31 + (lp12 ? in_child(c, body, s2) : body());
          }
       return h;
    };
@@ -1355,6 +1400,8 @@ int main(int argc, char** argv)
    rep.phase("histories depth<=" + std::to_string(depth), NI + firsts.size(), fn,
              [&](uint64_t idx, uint64_t sub) { return seq_at(idx, sub).str(); }, o,
              [&](uint64_t idx, uint64_t sub) { Seq s = seq_at(idx, sub); return s.ops.empty() ? std::string("@init") : std::string("@") + FNAME[s.ops.back().fn] + "[" + vlabel(s.ops.back()) + "]"; });
+
+   if(rep.all.counters.count("subtrees_cut_by_the_deadline")) rep.exhaustive = false;
 
    // parameter-code sweep: every bool / int / real parameter code with boundary values, then every SoPlex_getIntParam code
    std::vector<Op> sw = sweep_ops(), sg = sweep_get_ops();
@@ -1400,7 +1447,8 @@ int main(int argc, char** argv)
                       "valid arguments only: vector changes get dim = current dimension, indices are existing rows/columns, rational getters only when a rational LP exists; rational results that do not fit a long are not judged",
                       "arrays whose length is not advertised (SoPlex_getRowVector*) get exactly as many entries as the row has nonzeros; every other array has exactly the advertised length; returned strings are checked for a NUL inside their allocation",
                       "SoPlex_getSolvingTime: the accumulated ticks of the stopped solving-time timer are set to 125 on both objects before the call",
-                      "a sequence whose last call violated the property is not extended (its subtree is pruned)"
+                      "a sequence whose last call violated the property is not extended (its subtree is pruned)",
+                      "sequences containing an LP-format SoPlex_readInstanceFile run in a forked child of the worker (SPxLPBase::readLPF leaks its NameSets); on level 3 the file read is the MPS one"
                      };
    rep.extra["depth"] = std::to_string(depth);
    rep.extra["initial_states"] = std::to_string(NINIT);
